@@ -438,7 +438,7 @@ def execute(tid, inst, rnd=None):
                        pwm_before=num_s(objs[0].pwm), tq_before=si_of(objs[0].torque, 'Torque') if objs[0].torque is not None else N,
                        first=len(pt.time) + 1, epoch=len(epochs) + 1, pre_live=live_attrs(objs))
             _, err = outcome(lambda: _bounded(lambda: solvers[op['sid']].run(dt, T, motor_control=ctl, stop_condition=stop), pt, op))
-            rec.update(outcome='ok' if err is None else err, last=len(pt.time), load=list(b['calls']),
+            rec.update(outcome='ok' if err is None else err, last=len(pt.time), load=list(b['calls']), elems=elems_now(),
                        rule=events['rule'], control=events['control'], sensor=events['sensor'],
                        live=live_attrs(objs), lens=hist_lens(pt))
         elif k == 'reset':
